@@ -195,6 +195,16 @@ Inv_Predict ==
 Inv_Obj == last.op \in {"rating", "create", "deepcopy", "cmp"} =>
              ObjVerdict(last, [r \in {} |-> PNone], {"C18", "C20"}).fails \ {"C20.id_not_fresh"} = {}
 
+\* C15 as the property states it: the effective options are the call's arguments when given (0 and False are
+\* values), the constructed model's settings otherwise.  Differs from the step's own resolution only under the
+\* defect constants, which is what the negative controls exercise.
+TrueEffTau(c)   == IF IsNone(c.tau) THEN Models[last.model.id].tau ELSE c.tau.v
+TrueEffLimit(c) == IF IsNone(c.limit) THEN Models[last.model.id].limit = "T" ELSE c.limit.v = "1"
+Inv_C15 == RateOk =>
+  LET M == last.model
+      Y == RateFn(M.kind, ModelP(M), TeamsVals(last.teams), OutcomeVals(LCall), TrueEffTau(LCall), TrueEffLimit(LCall))
+  IN  \A s \in AllSlots(last) : Y[s[1]][s[2]].mu = last.X[s[1]][s[2]].mu /\ Y[s[1]][s[2]].sigma = last.X[s[1]][s[2]].sigma
+
 \* the model objects never change (action property)
 ModelsNeverChange == [][models' = models]_vars
 
